@@ -248,3 +248,23 @@ def run(ctx):
             r5.samples.append({"obligation": "%s: %s <= %s" % (k, sz, cap), "discharged_by": "size guard facts"})
     if npr < 2:
         raise Broken("C03.R5: only %d narrowing obligations on the send path" % npr)
+
+    # ------------------------------------------------------------------ R7
+    # "delivered exactly once" in blocking mode rests on finish meaning flushed:
+    # xcm_send waits until finish succeeds; C01.R10's engine decides it.
+    from . import C01 as c01
+    r7 = ctx.rule("C03.R7", "finish of a framing transport reports success only when the accepted message has left the send buffer")
+    for t in tables:
+        fin, snd = t.slots.get("finish"), t.slots.get("send")
+        if fin is None or snd is None or not t.messaging:
+            continue
+        if not any(TP.mentions_field(snd, x, "send_mbuf") for x in snd.nodes if snd.nodes[x]["k"] == "member"):
+            continue
+        if fin.qname in [str(i) for i in r7.instances]:
+            continue
+        r7.instance(fin.qname)
+        rr = c01.FinishFlushed(P, fin, r7)
+        S.run(rr, fin)
+        if rr.nzero < 1:
+            raise Broken("C03.R7: no success exit found in %s" % fin.name)
+    r7.floor(2, "finish ops of framing transports")
